@@ -27,7 +27,7 @@ def make_plan(seed, run, engine, tier="quick"):
     rng = G.rng_for(seed, "C09", run)
     n, p = int(rng.integers(2, 18)), int(rng.integers(1, 12))
     kind = choice(rng, ["generic", "low_rank", "clustered", "tiny_scale", "huge_scale", "zero_cols",
-                        "one_col"])
+                        "one_col", "annihilated"])
     if kind == "one_col":
         p = 1
     X, info = G.gen_X(rng, n, p, density=choice(rng, [1.0, 0.6, 0.3]), scale_decades=0.5)
@@ -49,6 +49,22 @@ def make_plan(seed, run, engine, tier="quick"):
         X = X * 10.0 ** int(rng.integers(3, 7))
     elif kind == "zero_cols":
         X[:, rng.random(p) < 0.4] = 0.0
+    elif kind == "annihilated":
+        # structured designs whose columns are *exactly* orthogonal to a simple fixed vector
+        # (centred integer data: zero column sums; an empty first / last row; balanced
+        # alternating contrasts): harmless for a random start vector, fatal for a fixed one
+        Xi = rng.integers(-4, 5, size=(n, p)).astype(float) * (rng.random((n, p)) < 0.8)
+        v = choice(rng, ["ones", "first", "last", "alternating"])
+        if v == "ones":
+            Xi[-1] = -Xi[:-1].sum(axis=0)
+        elif v == "first":
+            Xi[0] = 0.0
+        elif v == "last":
+            Xi[-1] = 0.0
+        else:
+            sgn = (-1.0) ** np.arange(n)
+            Xi[-1] = -sgn[-1] * (sgn[:-1, None] * Xi[:-1]).sum(axis=0)
+        X = Xi * 2.0 ** int(rng.integers(-3, 3))
     ptr, idx = G.gen_groups(rng, p)
     n_seeds = 64 if tier == "quick" else 256
     data = dict(X=np.asarray(X).tolist(), kind="reg", degen=None, gen=dict(kind=kind))
